@@ -155,6 +155,8 @@ impl Ctl {
 
     pub fn release(&self, role: &str) {
         let mut g = self.inner.lock().unwrap();
+        // a role that has not reached its stop point yet must not park there later
+        g.stops.remove(role);
         if g.parked.contains(role) {
             g.released.insert(role.to_string());
             self.cv.notify_all();
